@@ -94,7 +94,7 @@ def decode_tables(ctx: Ctx, py: PyProgram, rs: RustProgram) -> None:
         n += 1
         p = py_call("decode_access", a)
         r = rs_call("decode_access", a)
-        pn = None if p is None else (_CS[p[0].name], _DI[p[1].name], _RW[p[2].name])
+        pn = None if p is None else (_CS.get(p[0].name, p[0].name), _DI.get(p[1].name, p[1].name), _RW.get(p[2].name, p[2].name))
         rn = None if r is None else tuple(_sym(x) for x in r)
         if pn != rn:
             ctx.violation("C15.1/decode-access", f"decode_access[{a:#06x}]", f"address {a:#06x} decodes to {pn} in Python and {rn} in Rust", f"{HD_PY} vs {rel}")
@@ -242,7 +242,11 @@ def pixel_map(ctx: Ctx, py: PyProgram, rs: RustProgram) -> None:
         ev.exec_block(body)
     except NotConst as e:
         raise AnalysisError(f"get_display_buffer is outside the abstract interpreter's fragment: {e}")
-    ctx.need(len(buffer) == 32 * 240, f"Python display stitcher covers {len(buffer)} pixels, expected {32 * 240}")
+    if len(buffer) != 32 * 240:
+        missing = sorted({c for r in range(32) for c in range(240) if (r, c) not in buffer})
+        extra = sorted({rc for rc in buffer if not (0 <= rc[0] < 32 and 0 <= rc[1] < 240)})
+        ctx.violation("C15.2/pixel-cover", key_of(CW_PY, "HD61202Controller.get_display_buffer", "visible pixels without a VRAM bit"),
+                      f"the display stitcher drives {len(buffer)} of {32 * 240} pixels: display column(s) {missing[:8]} are not determined by any VRAM bit" + (f"; writes outside the panel at {extra[:4]}" if extra else ""), CW_PY)
     seen: dict = {}
     n = 0
     for (row, col), v in buffer.items():
@@ -262,8 +266,8 @@ def pixel_map(ctx: Ctx, py: PyProgram, rs: RustProgram) -> None:
         cols = {c for _b, _r, c in lst}
         if len(lst) != 8 or len(cols) != 1:
             ctx.violation("C15.2/byte-column", f"vram-byte[{cell}]", f"VRAM byte {cell} drives {len(lst)} pixels in display columns {sorted(cols)}", CW_PY)
-    ctx.instance("C15.2/python-pixel-map", "visible pixels -> VRAM bit (abstract interpretation of get_display_buffer), bijection + byte/column", n, 7680)
-    ctx.sample({"pixel(0,0)": str(buffer[(0, 0)]), "pixel(31,239)": str(buffer[(31, 239)]), "pixel(5,120)": str(buffer[(5, 120)])})
+    ctx.instance("C15.2/python-pixel-map", "visible pixels -> VRAM bit (abstract interpretation of get_display_buffer), bijection + byte/column", 32 * 240, 7680, discharged=n)
+    ctx.sample({"pixel(0,0)": str(buffer.get((0, 0))), "pixel(31,239)": str(buffer.get((31, 239))), "pixel(5,120)": str(buffer.get((5, 120)))})
 
     # region tables
     def py_regions() -> list[tuple]:
